@@ -556,5 +556,38 @@ def str_(x=""):
     return _b.str(x)
 
 
-BUILTINS = dict(len=len_, range=range_, list=list_, float=float_, int=int_, round=round_, isinstance=isinstance_,
+class _Math:
+    """proxy-aware subset of the `math` module (mathematical reals; concrete arguments are delegated to the real module)"""
+    import math as _m
+    inf, pi, e, nan = _m.inf, _m.pi, _m.e, _m.nan
+
+    def __getattr__(self, k):
+        real = getattr(self._m, k)
+        def g(*a, **kw):
+            if any(isinstance(x, Sym) for x in a) or any(isinstance(x, Sym) for x in kw.values()):
+                raise Unsupported("math.%s of a symbolic value" % k)
+            return real(*a, **kw)
+        return g
+
+    def isclose(self, a, b, *, rel_tol=1e-09, abs_tol=0.0):
+        if not (isinstance(a, Sym) or isinstance(b, Sym)):
+            return self._m.isclose(a, b, rel_tol=rel_tol, abs_tol=abs_tol)
+        ta, tb = lift(float_(a) if isinstance(a, Sym) else Sym(z3.RealVal(repr(float(a))))), lift(float_(b) if isinstance(b, Sym) else Sym(z3.RealVal(repr(float(b)))))
+        ab = lambda t: z3.If(t >= 0, t, -t)
+        mx = lambda x, y: z3.If(x >= y, x, y)
+        rt_, at_ = z3.RealVal(repr(float(rel_tol))), z3.RealVal(repr(float(abs_tol)))
+        return Sym(z3.Or(ta == tb, ab(ta - tb) <= mx(rt_ * mx(ab(ta), ab(tb)), at_)))
+
+    def floor(self, x):
+        if isinstance(x, Sym):
+            return Sym(z3.ToInt(lift(float_(x))))
+        return self._m.floor(x)
+
+    def ceil(self, x):
+        if isinstance(x, Sym):
+            return Sym(-z3.ToInt(-lift(float_(x))))
+        return self._m.ceil(x)
+
+
+BUILTINS = dict(math=_Math(), len=len_, range=range_, list=list_, float=float_, int=int_, round=round_, isinstance=isinstance_,
                 max=max_, min=min_, sum=sum_, all=all_, any=any_, enumerate=enumerate_, str=str_)
